@@ -625,6 +625,11 @@ func (e *Engine) step(st *State) {
 	case *ssa.MakeMap:
 		f.env[x] = MapRef{obj: st.alloc(&MapData{})}
 	case *ssa.MakeSlice:
+		if lt := e.get(st, x.Len).(*Term); !lt.IsConst() {
+			if e.decide(st, Cmp("bvslt", lt, BV(lt.w, 0))) {
+				e.goPanic(st, "makeslice: len out of range")
+			}
+		}
 		n := e.concrete(st, e.get(st, x.Len).(*Term))
 		c := e.concrete(st, e.get(st, x.Cap).(*Term))
 		et := x.Type().Underlying().(*types.Slice).Elem()
@@ -1763,6 +1768,8 @@ func (e *Engine) intrinsic(st *State, fv Func, args []Value, x *ssa.Call) bool {
 			st.race.spawn(st.cur)
 		}
 		st.trace = append(st.trace, fmt.Sprintf("spawn g%d", len(st.gs)-1))
+	case short == "verifYield":
+		// native replays only (schedule enforcement); nothing to do symbolically
 	case short == "vndYield":
 		// any other runnable goroutine may run now (a voluntary switch: not counted against the preemption bound)
 		g := st.gs[st.cur]
